@@ -1,5 +1,5 @@
-(* Stages B-F assembled: for programs over variables - declarations (at the top level and inside blocks), assignments,
-   compound assignments, ++ / --, expression statements, conditionals, condition loops and three-clause loops (with break and continue)
+(* Stages B-G assembled: for programs over variables - declarations (at the top level and inside blocks), assignments,
+   compound assignments, ++ / --, expression statements, conditionals, plain loops, condition loops and three-clause loops (with break and continue)
    nested to any depth, any scalar expressions over the variables visible at that point -
    compiling with the compiler model and running the result on the VM model gives what the reference semantics
    gives, whenever the program ends (its source-level run [run_stmts] returns with some fuel). *)
